@@ -118,6 +118,31 @@ def check(run, model, tier):
              '' if ok_src else ('the line that decides "keep the lock" is read with %s, which serves the text the file had when it was first cached: after the caller\'s module was edited and '
                                 'reloaded, a plain read standing on a line that used to hold an augmented assignment is classified from the stale text, __get__ returns with the lock '
                                 'held, no __set__ follows, and every other thread blocks on the attribute' % ', '.join(sorted(cached_api))), node=cargs[0], obligation=True)
+    # ... and it is the line the frame is executing: with the default context of one line that is lines[0]; with a wider context it is lines[<frame info>.index] - the
+    # window is not centred when the statement stands near the top or the bottom of its file, so a fixed position reads a neighbouring line there
+    ctxs = []
+    for c_ in shallow_calls(get.node):
+        if norm(c_.func).split('.')[-1] == 'getframeinfo':
+            cv = c_.args[1] if len(c_.args) > 1 else next((k_.value for k_ in c_.keywords if k_.arg == 'context'), None)
+            ctxs.append(cv)
+    subs = [n_ for n_ in walk_shallow(get.node) if isinstance(n_, ast.Subscript) and isinstance(n_.value, ast.Attribute) and n_.value.attr == 'lines' and isinstance(n_.ctx, ast.Load)]
+    for cv in ctxs:
+        try:
+            cval = 1 if cv is None else eval(compile(ast.Expression(body=cv), '<ctx>', 'eval'), {'__builtins__': {}})
+        except Exception:
+            raise AnalysisError('__get__: the context argument of getframeinfo is not a constant (%s)' % norm(cv))
+        for sb in subs:
+            idx = sb.slice
+            is_index_field = (dotted(idx) or '').endswith('.index')
+            try:
+                ival = eval(compile(ast.Expression(body=idx), '<idx>', 'eval'), {'__builtins__': {}})
+            except Exception:
+                ival = None
+            ok_ = is_index_field or (cval == 1 and ival == 0)
+            run.inst('PROTO.source-line', get, 'the classified line is the executing line: lines[%s] with context=%s' % (norm(idx), cval), ok_,
+                     '' if ok_ else ('the frame is inspected with a context of %s lines and the classifier is given lines[%s]: that is the executing line only when the window could be centred on it; '
+                                     'for a statement on the first or last line of its file it is a neighbouring line - a plain read next to an augmented assignment keeps the lock for good'
+                                     % (cval, norm(idx))), node=sb, obligation=True)
     # acquire dominates the classification
     run.inst('PROTO.keep-lock-branch', get, 'acquire dominates classification', any(g.dominates(a, ctest) for a in acquires),
              'the lock is not held when the line is classified', node=ctest.ast, obligation=True)
